@@ -19,7 +19,7 @@ SPEC = dict(
     component="deadline",
     props_module="Refinery.Props.C07",
     gen_module="Refinery.Gen.Deadline",
-    quick=dict(cases=1200, len=60, shards=4),
+    quick=dict(cases=600, len=60, shards=4),
     thorough=dict(cases=48000, len=90, shards=16),
     nontrivial=nontrivial,
     rule="cases = the `deadline` component's random schedules (see C03) with ~9% direct sendTracesEarly(bytes) calls, bytes drawn from "
